@@ -21,6 +21,7 @@ import (
 	"regexp"
 	"sort"
 	"strings"
+	"sync/atomic"
 	"time"
 
 	"github.com/php-any/origami/utils/vshim"
@@ -385,16 +386,43 @@ func shape(v reflect.Value, depth int) string {
 	return v.Kind().String()
 }
 
-// selfExec runs the spec in a brand-new process.
+var flakyChildCrashes atomic.Int64
+
+// selfExec runs the spec in a brand-new process. A child that dies is retried twice: only a
+// crash that reproduces every time is believed (and returned as an error); a crash that does
+// not reproduce is counted and reported in the evidence, never as a verdict.
 func selfExec(spec execSpec) (execResult, error) {
+	var r execResult
+	var err error
+	for attempt := 0; attempt < 3; attempt++ {
+		r, err = selfExecOnce(spec)
+		if err == nil {
+			if attempt > 0 {
+				flakyChildCrashes.Add(1)
+			}
+			return r, nil
+		}
+	}
+	return r, err
+}
+
+func selfExecOnce(spec execSpec) (execResult, error) {
 	exe, _ := os.Executable()
 	sb, _ := json.Marshal(spec)
 	cmd := exec.Command(exe, "--exec", string(sb))
 	cmd.Env = append(os.Environ(), "VERIF_WORKER=")
-	var out bytes.Buffer
+	var out, errb bytes.Buffer
 	cmd.Stdout = &out
+	cmd.Stderr = &errb
 	err := cmd.Run()
 	var r execResult
+	if err != nil {
+		es := errb.String()
+		if len(es) > 1500 {
+			es = es[:1500]
+		}
+		err = fmt.Errorf("%v: %s", err, es)
+	}
 	for _, l := range strings.Split(out.String(), "\n") {
 		if strings.HasPrefix(l, marker) {
 			if e := json.Unmarshal([]byte(l[len(marker):]), &r); e != nil {
@@ -497,7 +525,7 @@ func pairWorker(w *pool.W, arg json.RawMessage) {
 		// depend on what this worker happened to run before
 		pr, err := selfExec(execSpec{Progs: []string{a.Name, bname}, Trace: true})
 		if err != nil {
-			w.Emit(rec{Kind: "fail", Key: "harness:pair-exec", Clause: "harness", Detail: fmt.Sprint(err)})
+			w.Emit(rec{Kind: "fail", Key: "harness:pair-exec", Clause: "harness", Detail: fmt.Sprint(a.Name, ";", bname, ": ", err)})
 			continue
 		}
 		if pr.Obs == solo {
@@ -524,6 +552,9 @@ func pairWorker(w *pool.W, arg json.RawMessage) {
 			Detail: fmt.Sprintf("B=%q alone in a new process: %s\nB on a fresh VM after A=%q: %s\npackage-level variables written by A and read by B with a different value than B alone sees: %v (all candidates: %v)", bname, solo, a.Name, pr.Obs, car, pr.Carriers)})
 	}
 	w.Emit(rec{Kind: "count", N: n})
+	if f := flakyChildCrashes.Swap(0); f > 0 {
+		w.Emit(rec{Kind: "flaky", N: f})
+	}
 }
 
 // ---- (iv) CLI repetition -------------------------------------------------------------------
@@ -584,6 +615,8 @@ func main() {
 			}
 		case "fail":
 			c.Fail(r.Key, r.Clause, r.Size, r.Case, r.Detail)
+		case "flaky":
+			c.Add("child_process_crashes_not_reproduced_on_retry", r.N)
 		case "sample":
 			c.Sample(r.Sample)
 		}
